@@ -236,6 +236,7 @@ type event =
 | EvTopicOp of oid * nat * topk * nat * nat
 | EvTopicRet of oid * bool
 | EvBcastEnd of aid * nat
+| EvIdentity of aid * bool
 
 val dec_bool : nat -> bool
 
